@@ -544,3 +544,5 @@ def run(report, repo):
   report.guard(r3b_payload_paths, report, repo)
   report.guard(r4_validation, report, repo)
   report.guard(r5_tables, report, repo)
+  from sa.rules import extra4  # pylint: disable=g-import-not-at-top
+  report.guard(extra4.defaults_are_constants, report, repo, 'C13-R6', AM)
